@@ -103,6 +103,7 @@ def tier_p(prop, cfg, tier, jobs):
     shards = {k: cfg.get("shards", {}).get(k, 1) for k in keys}
     t0 = time.time()
     timeout_ms = cfg.get("timeout_ms", 30000) * (2 if tier == "thorough" else 1)
+    os.environ["PYVC_TIER"] = tier
     res = run_all(mods, keys, lemmas, jobs=jobs, shards=shards, timeout_ms=timeout_ms)
     out = dict(functions=keys, lemmas=lemmas, trusted=trusted, axioms=axioms, wall_s=round(time.time() - t0, 2),
                obligations=0, discharged=0, covers=0, covers_reachable=0, solver_s=0.0, backends={}, sat=[], unknown=[], drift=[], crash=[],
@@ -129,6 +130,7 @@ def tier_p(prop, cfg, tier, jobs):
             out["obligations"] += 1
             pf["obligations"] += 1
             out["backends"][o["backend"]] = out["backends"].get(o["backend"], 0) + 1
+            out.setdefault("stages", {})[str(o.get("stage"))] = out.setdefault("stages", {}).get(str(o.get("stage")), 0) + 1
             if o["result"] == "unsat":
                 out["discharged"] += 1
                 pf["discharged"] += 1
@@ -249,8 +251,9 @@ def main():
     warnings = []
     # ------------------------------------------------------------------ tier P
     P = None
+    phases = os.environ.get("VERIF_PHASES", "PNB")  # development aid: run only some phases (evidence is then partial)
     try:
-        P = tier_p(prop, cfg, tier, a.jobs)
+        P = tier_p(prop, cfg, tier, a.jobs) if "P" in phases else None
     except Exception:  # noqa: BLE001
         broken.append("tier P crashed:\n" + traceback.format_exc())
     B = None
@@ -273,7 +276,7 @@ def main():
                                     if pf["status"] == "proved" and pf["obligations"] and pf["reachable_returns"] == 0 and fkey in P["functions"]]
     # ------------------------------------------------------------------ tier B
     try:
-        B = tier_b(prop, cfg, tier, seed)
+        B = tier_b(prop, cfg, tier, seed) if "B" in phases else None
     except Exception:  # noqa: BLE001
         broken.append("tier B crashed:\n" + traceback.format_exc())
     if B and B.get("error"):
@@ -281,7 +284,7 @@ def main():
         B = None
     N = None
     try:
-        N = tier_n(prop, cfg, tier)
+        N = tier_n(prop, cfg, tier) if "N" in phases else None
     except Exception:  # noqa: BLE001
         broken.append("native contract phase crashed:\n" + traceback.format_exc())
     if N and N.get("error"):
@@ -362,6 +365,7 @@ def main():
             trusted_base=[ASSUMPTIONS["Z3"], ASSUMPTIONS["PYVC"], "CPython"] + P["trusted"] + P["axioms"],
             functions_under_contract=P["functions"], lemmas=P["lemmas"], per_function=P["per_function"], backends=P["backends"],
             solver_s=P["solver_s"], tierP_wall_s=P["wall_s"], reachable_return_paths=P["covers_reachable"], return_paths=P["covers"],
+            solver_stages=P.get("stages"),
             undecided=[o["name"] for _, o in P["unknown"]], drift=[f"{k}: {w}" for k, w in P["drift"]],
             refuted=[o["name"] for _, _, o in P["sat"]],
         )
